@@ -321,6 +321,16 @@ def check_case(specs, op):
             return True, (f'C11:{opn}:aligned-axis-labels', f'{opn}: labels on the aligned axis {got_other}, expected the set {other}; {where}')
         if res.shape != (len(got_rows), len(got_cols)) or res._blocks._shape != res.shape:
             return True, (f'C11:{opn}:shape', f'{opn}: shape {res.shape} / blocks {res._blocks._shape} vs labels {(len(got_rows), len(got_cols))}; {where}')
+        if keys is not None:
+            # the two-level label must address the content it was built for
+            cat_index = res.index if axis == 0 else res.columns
+            for p, lab2 in enumerate(exp_cat_labels):
+                try:
+                    pos = cat_index.loc_to_iloc(lab2)
+                except Exception as e:
+                    pos = f'raises {e!r}'
+                if not (isinstance(pos, (int, np.integer)) and int(pos) == p):
+                    return True, (f'C11:{opn}:two-level-label-lookup', f'{opn}: looking up {lab2!r} gives {pos!r}, it labels position {p}; {where}')
         cells = frame_cells(res) if res.shape[0] and res.shape[1] else []
         for p, (k, lab) in enumerate(cat):
             for q, o in enumerate(got_other):
@@ -375,6 +385,14 @@ def check_case(specs, op):
         got = list(res.values)
         if not _labs_eq(got_labels, exp_labels) or len(got) != len(vals):
             return True, (f'C11:{opn}:concat-axis-labels', f'{opn}: labels {got_labels}, expected {exp_labels}; {where}')
+        if keys is not None:
+            for p, lab2 in enumerate(exp_labels):
+                try:
+                    pos = res.index.loc_to_iloc(lab2)
+                except Exception as e:
+                    pos = f'raises {e!r}'
+                if not (isinstance(pos, (int, np.integer)) and int(pos) == p):
+                    return True, (f'C11:{opn}:two-level-label-lookup', f'{opn}: looking up {lab2!r} gives {pos!r}, it labels position {p}; {where}')
         for p, v in enumerate(vals):
             if not cell_ok(got[p], v):
                 return True, (f'C11:{opn}:cell-lost-or-moved', f'{opn}: result[{exp_labels[p]!r}] = {got[p]!r}, input holds {v!r}; {where}')
